@@ -51,6 +51,7 @@ const prelude = `(set-option :print-success false)
 (declare-fun uIsDigit (Int) Bool)
 (declare-fun uIsSpace (Int) Bool)
 (declare-fun clen (Int) Int)
+(declare-fun cfirst (Int) Int)
 `
 
 // NewSolver starts a solver process.
